@@ -34,6 +34,15 @@ typedef struct {
 } lzma_coder;
 
 
+#ifdef TUKAANI_PROJECT_XZ_VERIF
+/// Verification hook (test builds only), see lz_encoder_prepare() users:
+/// added to the match finder's initial offset. Must stay below
+/// UINT32_MAX - cyclic_size.
+extern uint32_t lzma_verif_mf_offset_bias;
+uint32_t lzma_verif_mf_offset_bias = 0;
+#endif
+
+
 /// \brief      Moves the data in the input window to free space for new data
 ///
 /// mf->buffer is a sliding input window, which keeps mf->keep_size_before
@@ -393,6 +402,12 @@ lz_encoder_init(lzma_mf *mf, const lzma_allocator *allocator,
 	// that match finder needs to be normalized more often, which may
 	// hurt performance with huge dictionaries.
 	mf->offset = mf->cyclic_size;
+#ifdef TUKAANI_PROJECT_XZ_VERIF
+	// Verification hook (test builds only): bias the initial offset so
+	// that normalize() in lz_encoder_mf.c, normally first reached after
+	// about 4 GiB of input, is reached within kilobytes.
+	mf->offset += lzma_verif_mf_offset_bias;
+#endif
 	mf->read_pos = 0;
 	mf->read_ahead = 0;
 	mf->read_limit = 0;
